@@ -289,3 +289,127 @@ class Configure(Spec):
 
 
 CONFIGURE_UNITS = [Configure(sfx, vk, v1s) for sfx in (".yaml", ".toml", "") for vk, v1s in ((None, False), (None, True), (2, False), ("2.0", True), (1, True), ("1.2", False), (3, False), (0, True))]
+
+
+# ---------------------------------------------------------------- the grid file defaulted from a WILDCARD forcing name
+# Ghost directory (fixed contents per unit, stated in the unit name). Assumed contracts, as documented for the standard
+# library: Path(dir).glob(name) yields every entry of dir matching name, hidden ones (leading dot) included, in
+# arbitrary order - this is also what the forcing module's find_files uses, so its sorted first element is "the first
+# forcing file"; glob.glob(pattern) yields the matches EXCEPT hidden entries when the name part starts with a wildcard.
+
+WILD_PATTERN = "data/*_avg.nc"
+WILD_LISTINGS = {"a hidden first match": ["run_avg.nc", ".spinup_avg.nc", "b_avg.nc"], "ordinary matches": ["run_avg.nc", "a_avg.nc"], "no match": []}
+
+
+class WildPath(ModelObject):
+    def __init__(self, value):
+        self.value = value.value if isinstance(value, WildPath) else value
+
+    def pv_str(self, cx):
+        return self.value
+
+    def __eq__(self, other):
+        return isinstance(other, (str, WildPath)) and (other.value if isinstance(other, WildPath) else other) == self.value
+
+    def __hash__(self):
+        return hash(self.value)
+
+    def __lt__(self, other):
+        return self.value < (other.value if isinstance(other, WildPath) else other)
+
+    def __repr__(self):
+        return f"Path({self.value!r})"
+
+    def pv_compare(self, cx, actual, label, kind):
+        # a file name is compared by its text (str or Path: both are accepted by the grid module)
+        got = actual.value if isinstance(actual, WildPath) else actual
+        cx.oblige(f"{label} == {self.value!r} (the first forcing file as the forcing module's own search sorts it; got {got!r})", isinstance(got, str) and got == self.value, kind=kind)
+
+    def pv_getattr(self, cx, name):
+        d, _, base = self.value.rpartition("/")
+        if name == "name":
+            return base
+        if name == "parent":
+            return WildPath(d or ".")
+        if name == "glob":
+            me = self
+
+            def glob(interp, pat):
+                lst = interp.cx.ghost["wild_listing"]
+                if me.value != "data" or pat != "*_avg.nc":
+                    raise Unsupported("Path.glob of another directory or pattern than the forcing file name's")
+                return [WildPath(f"data/{f}") for f in lst]
+
+            glob._pyvc_model = True
+            return glob
+        raise Unsupported(f"Path.{name}")
+
+
+def _wild_externals():
+    def path(interp, x):
+        return WildPath(x) if isinstance(x, (str, WildPath)) else x
+
+    def glob_glob(interp, pat, **kw):
+        if kw or (pat.value if isinstance(pat, WildPath) else pat) != WILD_PATTERN:
+            raise Unsupported("glob.glob of another pattern than the forcing file name")
+        return [f"data/{f}" for f in interp.cx.ghost["wild_listing"] if not f.startswith(".")]
+
+    return {"pathlib.Path": path, "glob.glob": glob_glob}
+
+
+def _first_forcing_file(listing):
+    return WildPath(sorted(f"data/{f}" for f in listing)[0] if listing else WILD_PATTERN)
+
+
+class ConfigureV2Wild(ConfigureV2):
+    """configure_v2 without a grid file and a wildcard forcing name: the grid file is the FIRST forcing file, i.e. the
+    first in sorted order of what Path.glob (the forcing module's own file search) matches; the pattern itself when
+    nothing matches."""
+
+    def __init__(self, listing):
+        super().__init__(set(), False, False, ())
+        self.listing = listing
+        self.name = f"configure_v2[no grid section, wildcard forcing name, directory with {listing}: {WILD_LISTINGS[listing]}]"
+        self.externals = _wild_externals()
+
+    def build(self):
+        c = super().build()
+        c["forcing"]["filename"] = WILD_PATTERN
+        return c
+
+    def inputs(self, cx):
+        cx.ghost["wild_listing"] = list(WILD_LISTINGS[self.listing])
+        return Args(config=self.build())
+
+    def model(self, cx, a):
+        super().model(cx, a)
+        a.config["grid"]["filename"] = _first_forcing_file(WILD_LISTINGS[self.listing])
+        return None
+
+
+class ConfigureV1Wild(ConfigureV1):
+    """the same for a legacy file without gridfile"""
+
+    def __init__(self, listing, inputfile):
+        super().__init__(None, inputfile, False, False, False, False, False, False)
+        self.listing = listing
+        self.name = f"configure_v1[no gridfile, wildcard input_file in {inputfile}, directory with {listing}: {WILD_LISTINGS[listing]}]"
+        self.externals = _wild_externals()
+
+    def build(self):
+        c = super().build()
+        c[self.o["inputfile"]]["input_file"] = WILD_PATTERN
+        return c
+
+    def inputs(self, cx):
+        cx.ghost["wild_listing"] = list(WILD_LISTINGS[self.listing])
+        return Args(config=self.build())
+
+    def model(self, cx, a):
+        out = super().model(cx, a)
+        out["forcing"]["filename"] = WILD_PATTERN
+        out["grid"]["filename"] = _first_forcing_file(WILD_LISTINGS[self.listing])
+        return out
+
+
+WILD_UNITS = [ConfigureV2Wild(k) for k in WILD_LISTINGS] + [ConfigureV1Wild(k, sec) for k in ("a hidden first match", "ordinary matches") for sec in ("gridforce", "files")]
